@@ -67,7 +67,7 @@ Section Full.
 
   (** the rest parameter when it has a slot (vm.c:718-720, make_call): not flagged UNUSED_REST *)
   Definition live_of (id : nat) (r : option name) (b : ast) : list name :=
-    if rest_unused true id r b then [] else rest_list r.
+    if rest_unused_p true id r (SV id) b then [] else rest_list r.
 
   Definition resolvableA (cur : fctxA) (x : name) (m : nat) : bool :=
     match cur with
@@ -145,7 +145,7 @@ Section Full.
                  ((boxedv (fst p) m = true /\ exists bx, v = VPair bx /\ wb W loc = Some bx)
                   \/ (boxedv (fst p) m = false /\ wb W loc = None /\
                       exists w, nth_error (wc W) loc = Some w /\ vrelW W v w))) fv els ->
-      vrelW W (VProc (lam_flags id r b) (length ps) (entryA svs' id ps r ls fv b) vars) (SClo id ps r ls b cenv).
+      vrelW W (VProc (lam_flags_sv id r (SV id) b) (length ps) (entryA svs' id ps r ls fv b) vars) (SClo id ps r ls b cenv).
 
   (** how a variable p of SPEC location loc is represented by the VM value v (slot content / vector element) *)
   Definition varrel (W : world) (p : vref) (loc : nat) (v : value) : Prop :=
@@ -844,20 +844,60 @@ Section Full.
   Qed.
 
   Lemma live_of_sub : forall id r b x, memn x (live_of id r b) = true -> memn x (rest_list r) = true.
-  Proof. intros id r b x. unfold live_of. destruct (rest_unused true id r b); [discriminate|auto]. Qed.
+  Proof. intros id r b x. unfold live_of. destruct (rest_unused_p true id r (SV id) b); [discriminate|auto]. Qed.
 
-  (** [SimRest.dead_of] (no slot) and [live_of] (slot) split the rest parameter *)
-  Lemma live_of_cases : forall id r b,
-    (dead_of id r b = rest_list r -> live_of id r b = []) /\ (dead_of id r b = [] -> live_of id r b = rest_list r).
+  (** make_call's three protocols for the flags the compiler really computes ([lam_flags_sv]: the set-vars are
+      consulted before usedp, simplify.c:190-201): a rest parameter listed in SV id always gets its slot *)
+  Lemma make_call_protocolA : forall s id r b nargs c vars vargs X rip rself rfp,
+    nargs <= length vargs -> (r = None -> length vargs = nargs) ->
+    exists vargs' h',
+      make_call s (VProc (lam_flags_sv id r (SV id) b) nargs c vars) (vargs ++ X) (length vargs) rip rself rfp =
+        Next (mkst (vint rfp :: rself :: vint rip :: vint (length vargs') :: vargs' ++ X) (length (vargs' ++ X))
+                   (VProc (lam_flags_sv id r (SV id) b) nargs c vars) 0 h' (globals s))
+      /\ ((live_of id r b = [] /\ vargs' = vargs /\ h' = heap s)
+          \/ (exists x l, r = Some x /\ live_of id r b = rest_list r /\
+                          build_list (heap s) (skipn nargs vargs) = (h', l) /\ vargs' = firstn nargs vargs ++ [l])).
   Proof.
-    intros id r b. unfold dead_of, live_of. destruct (rest_unused true id r b); split; intro H; auto.
+    intros s id r b nargs c vars vargs X rip rself rfp Hle Hfix.
+    destruct (rest_in_sv r (SV id)) eqn:Esv.
+    - (* listed in the set-vars: VARIADIC only, the rest list is always built *)
+      destruct r as [x|]; [|discriminate Esv].
+      assert (Efl : lam_flags_sv id (Some x) (SV id) b = lam_flags id (Some x) (Ref x (Local id))).
+      { rewrite (Proofs.lam_flags_sv_stale id x (SV id) b Esv). unfold lam_flags, rest_unused. simpl.
+        rewrite !Nat.eqb_refl. reflexivity. }
+      assert (Elive : live_of id (Some x) b = rest_list (Some x)).
+      { unfold live_of, rest_unused_p. rewrite Esv. reflexivity. }
+      assert (Edead : dead_of id (Some x) (Ref x (Local id)) = []).
+      { unfold dead_of, rest_unused. simpl. rewrite !Nat.eqb_refl. reflexivity. }
+      rewrite Efl.
+      destruct (make_call_protocol s id (Some x) (Ref x (Local id)) nargs c vars vargs X rip rself rfp Hle Hfix)
+        as (vargs' & h' & Hmc & Hcase).
+      exists vargs', h'. split; [exact Hmc|].
+      destruct Hcase as [(Hd & _) | (x0 & l & Hr & _ & Hb & Hv)].
+      + rewrite Edead in Hd. discriminate Hd.
+      + right. exists x0, l. repeat split; auto.
+    - assert (Efl : lam_flags_sv id r (SV id) b = lam_flags id r b).
+      { apply Proofs.lam_flags_sv_eq. rewrite Esv. discriminate. }
+      assert (Elive : live_of id r b = if rest_unused true id r b then [] else rest_list r).
+      { unfold live_of, rest_unused_p. rewrite Esv. reflexivity. }
+      rewrite Efl.
+      destruct (make_call_protocol s id r b nargs c vars vargs X rip rself rfp Hle Hfix)
+        as (vargs' & h' & Hmc & Hcase).
+      exists vargs', h'. split; [exact Hmc|]. rewrite Elive. unfold dead_of in Hcase.
+      destruct (rest_unused true id r b).
+      + destruct Hcase as [(Hd & Hv & Hh) | (x0 & l & Hr & Hd & _)].
+        * left. auto.
+        * subst r. discriminate Hd.
+      + destruct Hcase as [(Hd & Hv & Hh) | (x0 & l & Hr & Hd & Hb & Hv)].
+        * left. split; [symmetry; exact Hd|auto].
+        * right. exists x0, l. auto.
   Qed.
 
   (** a rest parameter without a slot is never referenced or assigned in the body (nested lambdas included) *)
   Lemma dead_rest_not_mentioned : forall id x b, live_of id (Some x) b = [] -> mentions id x b = false.
   Proof.
-    intros id x b H. unfold live_of in H. destruct (rest_unused true id (Some x) b) eqn:E; [|discriminate H].
-    exact (Proofs.rest_unused_sound id x b E).
+    intros id x b H. unfold live_of in H. destruct (rest_unused_p true id (Some x) (SV id) b) eqn:E; [|discriminate H].
+    exact (proj1 (Proofs.rest_unused_p_sound id x (SV id) b E)).
   Qed.
 
   (** the rest list consed by make_call (vm.c:1326-1328): fresh pairs at the end of the heap, no box involved *)
@@ -895,7 +935,7 @@ Section Full.
              (mkstore (snd (bind_all id ((ps ++ rest_list r) ++ ls) (spec_vals (length ps) r vs ++ repeat (SLit LUndef) (length ls)) cenv (cells st2))) (sglobals st2))
       = SVal v st' ->
     exists sc W' v' g',
-      make_call s0 (VProc (lam_flags id r b) (length ps) (entryA svs' id ps r ls fv b) vars) (vargs ++ X) (length vargs) rip rself rfp = Next sc /\
+      make_call s0 (VProc (lam_flags_sv id r (SV id) b) (length ps) (entryA svs' id ps r ls fv b) vars) (vargs ++ X) (length vargs) rip rself rfp = Next sc /\
       wext W0 W' /\ wc W' = cells st' /\ WINV W' /\ vrelW W' v' v /\ globrel W' (sglobals st') g' /\
       reaches sc (mkst (v' :: X) rfp rself rip (wh W') g').
   Proof.
@@ -916,18 +956,18 @@ Section Full.
     assert (Hlvals : length vals = length frame).
     { unfold vals, frame. rewrite !app_length, repeat_length, Hlsv. reflexivity. }
     set (entry := entryA svs' id ps r ls fv b) in *.
-    destruct (make_call_protocol s0 id r b n entry vars vargs X rip rself rfp
+    destruct (make_call_protocolA s0 id r b n entry vars vargs X rip rself rfp
                 ltac:(lia) ltac:(intro Hr; rewrite Hlva; auto)) as (vargs' & h' & Hmc & Hcase).
-    set (proc := VProc (lam_flags id r b) n entry vars) in *.
+    set (proc := VProc (lam_flags_sv id r (SV id) b) n entry vars) in *.
     (* the world after the rest list has been consed; the parameters that have a slot are represented *)
     assert (Hlive : exists W, wext W0 W /\ WINV W /\ wc W = wc W0 /\ wh W = h' /\
               n <= length vargs' /\
               forall x k, memn x (ps ++ live) = true -> index_of x pr = Some k ->
                           exists va w, nth_error vargs' k = Some va /\ nth_error sv' k = Some w /\ vrelW W va w).
-    { destruct (live_of_cases id r b) as [Hlc1 Hlc2]. fold live in Hlc1, Hlc2.
+    { fold live in Hcase.
       destruct Hcase as [(Hd & -> & ->) | (x0 & l & -> & Hd & Hb & ->)].
       - exists W0. split; [apply wext_refl; exact HB0|]. split; [exact HINV0|]. split; [reflexivity|]. split; [exact HWh0|].
-        split; [lia|]. intros x k Hm Hk. rewrite (Hlc1 Hd), app_nil_r in Hm.
+        split; [lia|]. intros x k Hm Hk. rewrite Hd, app_nil_r in Hm.
         destruct (memn_index_of x ps Hm) as (k' & Hk' & Hkl').
         unfold pr in Hk. rewrite (index_of_app_l _ _ (rest_list r) _ Hk') in Hk. inversion Hk; subst k'.
         destruct (nth_error vs k) as [w|] eqn:Ew; [|apply nth_error_None in Ew; lia].
@@ -1536,9 +1576,9 @@ Section Full.
     generate tl svs cur (Lam id ps r ls (SV id) fv b) =
     let body := entryA (fun m => if Nat.eqb m id then SV id else svs m) id ps r ls fv b in
     match fv with
-    | [] => [IPushProc (lam_flags id r b) (length ps) body]
+    | [] => [IPushProc (lam_flags_sv id r (SV id) b) (length ps) body]
     | _ :: _ => [IPush LVoid; IPush (LInt (Z.of_nat (length fv))); IMakeVector]
-                ++ closure_fill svs cur 0 fv ++ [IMakeProc (lam_flags id r b) (length ps) body]
+                ++ closure_fill svs cur 0 fv ++ [IMakeProc (lam_flags_sv id r (SV id) b) (length ps) body]
     end.
 
   Proof. intros. destruct fv; reflexivity. Qed.
@@ -1557,7 +1597,7 @@ Section Full.
       fragA (Some (id, ps, r, live_of id r b, ls, fv)) b = true /\ agrees svs' /\
       (forall p, In p fv -> exists m, snd p = Local m /\ m <> id) /\
       vec_ok W fv vars els /\ fvrelW W cenv fv els /\
-      v = VProc (lam_flags id r b) (length ps) (entryA svs' id ps r ls fv b) vars.
+      v = VProc (lam_flags_sv id r (SV id) b) (length ps) (entryA svs' id ps r ls fv b) vars.
   Proof.
     intros W v id ps r ls b cenv H.
     inversion H as [| | id0 ps0 r0 ls0 b0 cenv0 fv svs' vars els Hnd Hndsv Hsvin Hfr Hag Hown Hvec HF]; subst.
@@ -1694,7 +1734,7 @@ Section Full.
       { intros p Hin. unfold fv_okA in Hfvok. rewrite forallb_forall in Hfvok. specialize (Hfvok p Hin).
         destruct (snd p) as [|m]; [discriminate|]. apply andb_true_iff in Hfvok. destruct Hfvok as [Hne _].
         exists m. split; auto. apply negb_true_iff in Hne. apply Nat.eqb_neq in Hne. exact Hne. }
-      set (body := entryA svs' id ps r ls fv b) in *. set (fl := lam_flags id r b) in *.
+      set (body := entryA svs' id ps r ls fv b) in *. set (fl := lam_flags_sv id r (SV id) b) in *.
       destruct fv as [|p0 fvt].
       + exists W, (VProc fl (length ps) body (VLit LVoid)), (globals s). split; [apply wext_refl; auto|]. split; auto. split; auto.
         split; [|split; [exact Hgl|]].
@@ -1781,7 +1821,7 @@ Section Full.
       assert (Hvargs2 : Forall2 (vrelW W2) vargs vs) by exact (Forall2_vrelW_mono W1 W2 vargs vs HB1 HE2 Hvargs).
       assert (HE02 : wext W W2) by (eapply wext_trans; eauto).
       assert (Hgl2 : globrel W2 (sglobals st2) (globals s2)) by exact Hg2.
-      set (proc := VProc (lam_flags cid cr cb) (length cps) (entryA svs' cid cps cr cls cfv cb) cvars) in *.
+      set (proc := VProc (lam_flags_sv cid cr (SV cid) cb) (length cps) (entryA svs' cid cps cr cls cfv cb) cvars) in *.
       assert (Hat3 : at_code s2 (pre ++ cargs ++ cg) [icall] post).
       { split; simpl; [|solve_len]. rewrite Hcode. norm_code. }
       assert (Hstk2 : stk s2 = proc :: (vargs ++ stk s)) by reflexivity.
@@ -2121,17 +2161,17 @@ Section PlainFragment.
       apply andb_true_iff in H. destruct H as [H Hfb]. apply andb_true_iff in H. destruct H as [H Hfvok].
       apply andb_true_iff in H. destruct H as [H Hsvin]. rewrite H. simpl.
       apply andb_true_iff in Ha. destruct Ha as [Ha Hab]. apply andb_true_iff in Ha. destruct Ha as [Hasv Hafv].
-      assert (Hdead : forall y, memn y (rest_list r) = true -> memn y (live_of id r b) = false -> mentions id y b = false).
-      { intros y Hy Hl. unfold live_of in Hl. destruct (rest_unused true id r b) eqn:Eu; [|congruence].
+      assert (Hdead : forall y, memn y (rest_list r) = true -> memn y (live_of SV id r b) = false -> mentions id y b = false).
+      { intros y Hy Hl. unfold live_of in Hl. destruct (rest_unused_p true id r (SV id) b) eqn:Eu; [|congruence].
         destruct r as [z|]; [|discriminate Hy]. simpl in Hy. rewrite orb_false_r in Hy. apply Nat.eqb_eq in Hy. subst y.
-        exact (Proofs.rest_unused_sound id z b Eu). }
+        exact (proj1 (Proofs.rest_unused_p_sound id z (SV id) b Eu)). }
       apply andb_true_iff. split; [apply andb_true_iff; split|].
       + (* sv only lists variables that have a slot *)
         apply forallb_forall. intros y Hy. rewrite forallb_forall in Hsvin, Hasv.
         specialize (Hsvin y Hy). specialize (Hasv y Hy).
         rewrite !memn_app in Hsvin |- *. apply orb_true_iff in Hsvin. destruct Hsvin as [Hs|Hs]; [rewrite Hs; reflexivity|].
         apply orb_true_iff in Hs. destruct Hs as [Hs|Hs]; [|rewrite Hs; rewrite !orb_true_r; reflexivity].
-        destruct (memn y (live_of id r b)) eqn:El; [rewrite orb_true_r; reflexivity|].
+        destruct (memn y (live_of SV id r b)) eqn:El; [rewrite orb_true_r; reflexivity|].
         rewrite (Hdead y Hs El) in Hasv. discriminate Hasv.
       + (* captured variables are fetchable *)
         unfold fv_okA in *. apply forallb_forall. intros q Hq. rewrite forallb_forall in Hfvok, Hafv.
@@ -2139,7 +2179,7 @@ Section PlainFragment.
         destruct (snd q) as [|m]; [discriminate Hfvok|].
         apply andb_true_iff in Hfvok. destruct Hfvok as [Hne Hres]. rewrite Hne. simpl.
         apply (resolvable_sub curP curA (Lam id ps r ls sv fv b) (fst q) m Hd); auto.
-      + apply (IHb (Some (id, ps, r, rest_list r, ls, fv)) (Some (id, ps, r, live_of id r b, ls, fv)) Hfb Hab).
+      + apply (IHb (Some (id, ps, r, rest_list r, ls, fv)) (Some (id, ps, r, live_of SV id r b, ls, fv)) Hfb Hab).
         simpl. repeat split; auto.
     - (* App *)
       simpl in H, Ha |- *. apply andb_true_iff in H. destruct H as [H1 H2]. apply andb_true_iff in Ha. destruct Ha as [Ha1 Ha2].
@@ -2246,8 +2286,8 @@ Module ExampleRest.
   Definition ilist (l : list Z) : sval := slist (map (fun z => SLit (LInt z)) l).
 
   (** the compiler flags g UNUSED_REST and f not *)
-  Example flags : lam_flags 3 (Some 7) (Ref 6 (Local 3)) = 3 /\
-                  match f_lam with Lam id _ r _ _ _ b => lam_flags id r b | _ => 0 end = 1.
+  Example flags : lam_flags_sv 3 (Some 7) [] (Ref 6 (Local 3)) = 3 /\
+                  match f_lam with Lam id _ r _ sv _ b => lam_flags_sv id r sv b | _ => 0 end = 1.
   Proof. split; reflexivity. Qed.
 
   Example frag_e0 : fragA SV0 None e0 = true.
